@@ -47,7 +47,8 @@ pub fn handle_scan(storage: &Arc<StorageEngine>, db: usize, parts: &[RespFrame])
                     "TYPE" => {
                         if i + 1 < parts.len() {
                             if let RespFrame::BulkString(Some(t)) = &parts[i + 1] {
-                                type_filter = Some(String::from_utf8_lossy(t).to_string());
+                                // the type name is matched without regard to case, as in Redis (strcasecmp)
+                                type_filter = Some(String::from_utf8_lossy(t).to_ascii_lowercase());
                                 i += 2;
                                 continue;
                             }
